@@ -62,6 +62,30 @@ def finish (s : St) (l r d lo hi : Nat) (flipOut : Bool) : St × Nat :=
     let fp := findOrPush s1 node
     ({ fp.1 with finished := fp.1.finished.insert (l, r) fp.2 }, fp.2)
 
+/-- `finish` with every field of the state used linearly (no hidden copy of `res`/`existing`/
+    `finished` while the state is uniquely referenced). Compiled code uses this version
+    (`@[csimp]` replaces `finish` by it — justified by the equation below); all theorems are
+    about `finish`. Without it the model is quadratic on operands with > 10^5 nodes. -/
+def finishFast (s : St) (l r d lo hi : Nat) (flipOut : Bool) : St × Nat :=
+  match s with
+  | ⟨res, existing, finished, ne⟩ =>
+    let ne' : Bool := if lo = 1 ∨ hi = 1 then true else ne
+    if lo = hi then (⟨res, existing, finished.insert (l, r) lo, ne'⟩, lo)
+    else
+      let node : Node := if flipOut then ⟨d, hi, lo⟩ else ⟨d, lo, hi⟩
+      match existing[node]? with
+      | some i => (⟨res, existing, finished.insert (l, r) i, ne'⟩, i)
+      | none =>
+        let i := res.size
+        (⟨res.push node, existing.insert node i, finished.insert (l, r) i, ne'⟩, i)
+
+@[csimp] theorem finish_eq_fast : @finish = @finishFast := by
+  funext s l r d lo hi flipOut
+  obtain ⟨res, existing, finished, ne⟩ := s
+  unfold finish finishFast findOrPush
+  by_cases h1 : lo = 1 ∨ hi = 1 <;> by_cases h2 : lo = hi <;> simp only [h1, h2, if_true, if_false]
+  all_goals (split <;> rename_i h <;> simp only [h])
+
 /-- static context of one `apply_with_flip` call -/
 structure Ctx where
   L : Arr
